@@ -61,14 +61,18 @@ def close(a, b, rel):
     return a == b or abs(a - b) <= 1e-12 + rel * max(abs(a), abs(b))
 
 
-def build(model, weight, rows, threads):
+# the accepted spellings of the two dictionary keys (biogeme.py: log_like_valid_names, weight_valid_names)
+KEY_VARIANTS = [('log_like', 'weight'), ('loglike', 'weights'), ('log_like', 'weights'), ('loglike', 'weight')]
+
+
+def build(model, weight, rows, threads, keys=('log_like', 'weight')):
     from vf.engine import make_db, make_biogeme
     spec = {n: (v, None, None, 0) for n, v in PARAMS[0].items()}
     ll = R.Builder(spec).build(MODELS[model])
-    formulas = {'log_like': ll}
+    formulas = {keys[0]: ll}
     wt = WEIGHTS[weight]
     if wt is not None:
-        formulas['weight'] = R.Builder(spec).build(wt)
+        formulas[keys[1]] = R.Builder(spec).build(wt)
     db = make_db(rows, COLS)
     return make_biogeme(db, formulas if wt is not None else ll, number_of_threads=threads)
 
@@ -131,8 +135,55 @@ def tables(tier):
     return out
 
 
+def _panel(task, rec):
+    """On panel data the sample size is the number of individuals: scaled = LL / individuals at both entry points,
+    for every thread count, and LL = sum over individuals of the simulated per-individual values."""
+    import numpy as np
+    from vf.engine import make_db, make_biogeme
+    comps = [(1, 2), (2, 1, 2), (3, 1), (2, 2, 2), (1, 1, 1)]
+    spec = {n: (v, None, None, 0) for n, v in PARAMS[0].items()}
+    inner = ('exp', MODELS['smooth'])
+    formula = ('log', ('traj', inner))
+    for comp in comps:
+        rows, k = [], 0
+        for i, cnt in enumerate(comp):
+            for _ in range(cnt):
+                rows.append(dict(POOL_ROWS[k], id=float(10 - 3 * i)))
+                k += 1
+        nind = len(comp)
+        for T in list(range(1, nind + 3)) + [0]:
+            for pi, x in enumerate(PARAMS):
+                case = dict(part='panel', comp=list(comp), threads=T, point=pi)
+                try:
+                    db = make_db(rows, COLS + ['id'])
+                    db.panel('id')
+                    b = make_biogeme(db, R.Builder(spec).build(formula), number_of_threads=T)
+                    names = list(b.free_beta_names)
+                    xv = np.array([x[nm] for nm in names], dtype=float)
+                    ll = float(b.calculate_likelihood(xv, scaled=False))
+                    lls = float(b.calculate_likelihood(xv, scaled=True))
+                    d = b.calculate_likelihood_and_derivatives(xv, scaled=False, hessian=False, bhhh=False)
+                    ds = b.calculate_likelihood_and_derivatives(xv, scaled=True, hessian=False, bhhh=False)
+                    bs = make_biogeme(db, {'v': R.Builder(spec).build(formula)}, number_of_threads=T)
+                    sim = [float(v) for v in bs.simulate({nm: x[nm] for nm in bs.free_beta_names})['v']]
+                except Exception as e:
+                    rec.violation(f'C04|raised-{type(e).__name__}|panel', f'{type(e).__name__}: {str(e)[:200]} comp={comp} T={T}', case)
+                    continue
+                want = 0.0
+                for idv in sorted({r['id'] for r in rows}):
+                    mine = [r for r in rows if r['id'] == idv]
+                    want += R.evaluate(formula, row=mine[0], params=x, rows=mine)
+                rec.case(('panel', comp, T, pi), (comp, T, pi, round(ll, 9)), outcome=('panel', nind))
+                if not close(ll, want, 1e-9) or not close(ll, sum(sim), 1e-11) or len(sim) != nind:
+                    rec.violation('C04|ll-not-sum-of-simulate|panel', f'LL={ll!r} reference={want!r} sum simulate={sum(sim)!r} comp={comp} T={T}', case)
+                if not close(lls, ll / nind, 1e-12) or not close(float(ds.function), float(d.function) / nind, 1e-12) \
+                        or not all(close(float(a), float(c) / nind, 1e-12) for a, c in zip(ds.gradient, d.gradient)):
+                    rec.violation('C04|scaled-not-ll-over-sample-size|panel',
+                                  f'panel with {nind} individuals / {len(rows)} rows, T={T}: scaled={lls!r}, {float(ds.function)!r}; LL={ll!r}', case)
+
+
 def tasks(tier, seed):
-    t = []
+    t = [dict(part='panel')]
     for model in MODELS:
         for weight in WEIGHTS:
             for tab in tables(tier):
@@ -142,6 +193,9 @@ def tasks(tier, seed):
 
 def run_task(task):
     rec = Rec()
+    if task.get('part') == 'panel':
+        _panel(task, rec)
+        return rec.result()
     model, weight, tab, tier = task['model'], task['weight'], task['table'], task['tier']
     rows0 = [POOL_ROWS[i] for i in tab]
     n = len(rows0)
@@ -168,7 +222,9 @@ def run_task(task):
             rows = [rows0[i] for i in perm]
             for T in threads:
                 try:
-                    b = build(model, weight, rows, T)
+                    # the spelling of the dictionary keys rotates with the case (all four accepted combinations are met)
+                    kv = KEY_VARIANTS[(len(perm) + sum(perm[:1]) + T) % 4]
+                    b = build(model, weight, rows, T, keys=kv)
                     ev = evaluate_all(b, x)
                 except Exception as e:
                     rec.case((model, weight, tuple(tab), perm, T, pi), ('raised', type(e).__name__), outcome='raised')
@@ -230,5 +286,7 @@ def run_task(task):
 
 
 def replay(case):
+    if case.get('part') == 'panel':
+        return run_task(dict(part='panel'))['violations']
     r = run_task(dict(model=case['model'], weight=case['weight'], table=case['table'], tier=case['tier']))
     return r['violations']
